@@ -290,10 +290,11 @@ class ParserTable:
             self.wrappers[kind] = info
 
     def _extract_lookaheads(self) -> None:
+        from .frame import analyse_lookahead
         for name, fi in self.cls.methods.items():
             if not re.fullmatch(r"lookahead_\d+", name):
                 continue
-            self.lookaheads[name] = self._analyse_lookahead(fi)
+            self.lookaheads[name] = analyse_lookahead(name)
 
     def _analyse_lookahead(self, fi: FuncInfo) -> dict:
         """Recognise the read-ahead loop:
